@@ -25,7 +25,7 @@ Print Assumptions C02_boolean.
     character by character up to ASCII case, a space standing for any whitespace *)
 Theorem C02_quoted_keyword : forall pat t,
   kw_is_match KExact pat t = true <->
-  exists pre m post, t = pre ++ m ++ post /\ seg_eq (unescape_quotes pat) m = true.
+  exists pre m post, t = pre ++ m ++ post /\ seg_eq pat m = true.
 Proof. exact exact_keyword_spec. Qed.
 Print Assumptions C02_quoted_keyword.
 
@@ -73,6 +73,23 @@ Theorem C02_star_is_everything : forall rest : str,
   search_stop rest = true -> parse_search (lit "*" ++ rest) = POk (FAnd []) (skip_spaces rest).
 Proof. exact star_is_everything. Qed.
 Print Assumptions C02_star_is_everything.
+
+(** ... and as an operand it is the Boolean constant true: `* OR x` selects every line, `NOT *` none
+    ([None] is the parser's encoding of "every line") *)
+Theorem C02_every_line_operand : forall (is_or : bool) (a b : option filter) (line : str),
+  osem (combine2 is_or a b) line = (if is_or then osem a line || osem b line else osem a line && osem b line) /\
+  osem (not_filter a) line = negb (osem a line).
+Proof. intros. split; [apply combine2_sem | apply not_filter_sem]. Qed.
+Print Assumptions C02_every_line_operand.
+Example C02_star_operands :
+  let k n := FKw KWild (lit n) in
+  parse_search (lit "* OR foo") = POk (FAnd []) [] /\
+  parse_search (lit "foo OR *") = POk (FAnd []) [] /\
+  parse_search (lit "NOT *") = POk (FAnd [FNot (FAnd [])]) [] /\
+  parse_search (lit "* AND foo") = POk (FAnd [k "foo"]) [] /\
+  parse_search (lit "(* OR a) AND NOT (b OR """")") = POk (FAnd [FNot (FAnd [])]) [] /\
+  forall line, fmatches (FAnd [FNot (FAnd [])]) line = false.
+Proof. exact star_operands. Qed.
 
 Example C02_filter_examples :
   let k n := FKw KWild (lit n) in
